@@ -666,7 +666,9 @@ class Deriver:
     # ---- texture entries / name values (templates.py, namevalue.py)
     def g_TEFaceBitfield(self, spec, ctx, avoid):
         n = self.rng.choice([1, 1, 2, 3, self.rng.randint(1, 8)])
-        hi = self.rng.choice([6, 7, 13, 14, 20, 44])
+        # (the format has no upper limit on face numbers: around the 7-bit group boundaries, the viewer's maximum (45), and
+        # beyond 64 where a fixed-width integer would stop)
+        hi = self.rng.choice([6, 7, 13, 14, 20, 44, 45, 62, 63, 64, 65, 70, 127, 128])
         faces = sorted(self.rng.sample(range(0, hi + 1), min(n, hi + 1)))
         return tuple(faces)
 
